@@ -17,6 +17,7 @@ import ElfioVerif.Model.Inspect
 import ElfioVerif.Props.C13
 import ElfioVerif.Props.C08
 import ElfioVerif.Lemmas.Dynamic
+import ElfioVerif.Lemmas.TablesTie
 namespace ElfioVerif
 open Gen
 namespace Inspect
@@ -112,6 +113,7 @@ theorem notes_total (e : Enc) (src : NoteSrc) (hok : C13.SrcOk src)
     refine ⟨[], ?_, fun k => ⟨none, C13.get_note_absent e _ [] k (by simp)⟩⟩
     unfold Note.process
     rw [walk_empty_eq]
+    try rw [NoteTie.walk_start]
     simp [pure, Except.pure]
   | some a => exact C13.get_note_total e ⟨some a, size⟩ hok (hs a rfl)
 
@@ -206,6 +208,7 @@ theorem skipNul_total (a : Bytes) (size : BitVec 64) (hlen : a.length = size.toN
     intro i hi hf
     have hs := size.isLt
     unfold Modinfo.skipNul
+    simp only [ModTie.skip_cond_eq, ModTie.skipByteIsNul_eq, ModTie.skip_incr, decide_eq_true_eq]
     by_cases hc : i.toNat < size.toNat
     · have hcond : mod_loop_cond i size = true := by
         unfold mod_loop_cond; rw [BitVec.ult]; simpa using hc
@@ -281,7 +284,7 @@ theorem parseLoop_total (a : Bytes) (size : BitVec 64) (hlen : a.length = size.t
     terminator behind the data (arbitrary content: records without `=`, without a final NUL, runs
     of NULs, empty), the constructor's parser returns; the getters only look at its result. -/
 theorem modinfo_total {b : SecBuf} (h : Ready b) : ∃ c, Modinfo.parse b = .ok c := by
-  unfold Modinfo.parse
+  rw [ModTie.parse_eq]
   rw [getData_of_settled h.settled]
   cases hd : b.data with
   | none => exact ⟨[], rfl⟩
